@@ -222,6 +222,8 @@ class Fxp():
         # scaling
         if self.scale is None: self.scale = kwargs.pop('scale', 1)
         if self.bias is None: self.bias = kwargs.pop('bias', 0)
+        if isinstance(self.scale, np.generic): self.scale = self.scale.item()   # numpy scalars would impose their (narrow) type
+        if isinstance(self.bias, np.generic): self.bias = self.bias.item()
         self.scaled = True if self.scale != 1 or self.bias != 0 else False
 
         # check if val is a raw value
